@@ -11,7 +11,8 @@ RULE = ("the real standard Engine.price driven by a scripted process with prescr
         "vector strikes (payoff dimension 1..3), call/put/forward payoffs, notionals, discount factors, 0..3 control variates "
         "(forwards/calls, with exact or perturbed prices), spot statistics on/off. non-trivial = at least 3 paths with non-constant "
         "payoff; distinct = distinct (paths, product, controls)")
-NOT_PROVED = ["variance reduction with k >= 2 controls (Schur-complement inequality): compared/oracle-checked only",
+NOT_PROVED = ["k >= 2 controls: the variance inequality is proved for coefficients solving the normal equations "
+              "(cv_var_le_raw_normal_equations); that numpy.linalg.pinv returns such coefficients is oracle-checked (residual), not proved",
               "np.cov / np.linalg.inv kernels are compared with the model's exact rational formulas, not proved"]
 ASSUMPTIONS = ["standard errors are compared as squares"]
 TRUSTED = ["numpy mean/std/cov/linalg.inv"]
@@ -118,8 +119,26 @@ def one_case(ctx, vals, kind, strikes, notional, df, controls, spot_stats, tag):
                 cond = float(np.linalg.cond(sx)) if np.all(np.isfinite(sx)) else float("inf")
             ctx.fail("oracle", "c07.cv_variance", desc, {"component": j, "adjusted_err": float(adj_err[j]), "raw_err": float(raw_err[j]),
                                                           "cond_sigma_x": cond},
-                     cls=dict(cls, singular_sigma_x=bool(cond > 1e12 and len(controls) >= 2)))
+                     cls=dict(cls, singular_sigma_x=bool(cond > 1e12 and len(controls) >= 2)))   # (class kept for the record: fixed in /repo)
             return
+        if len(controls) >= 2 and n > len(controls) + 1:
+            # k controls: theorem cv_var_le_raw_normal_equations needs coefficients solving the normal equations; the pseudo-inverse
+            # of the sample covariance matrix provides them: check the residual and that the stored rows use exactly those coefficients
+            cov = np.cov(X, y, bias=True)
+            sx, sxy = cov[:-1, :-1], cov[:-1, -1]
+            if float(np.amin(np.abs(sx))) >= 1e-12:
+                b_ref = np.linalg.pinv(sx, hermitian=True) @ sxy
+                scale_b = float(np.max(np.abs(sxy))) + 1e-300
+                if float(np.max(np.abs(sx @ b_ref - sxy))) > 1e-8 * scale_b:
+                    ctx.fail("oracle", "c07.cv_normal_equations", desc, {"what": "the regression coefficients do not solve the normal equations",
+                                                                        "residual": (sx @ b_ref - sxy).tolist()}, cls=cls)
+                    return
+                exp_adj = y - (X.T - prices) @ b_ref
+                sc = float(np.max(np.abs(y))) + float(np.sum(np.abs(b_ref)) * np.max(np.abs(X.T - prices))) + 1e-300
+                if float(np.max(np.abs(adj_rows[:, j] - exp_adj))) > 1e-7 * sc:
+                    ctx.fail("oracle", "c07.cv_rows", desc, {"what": "adjusted rows are not Y - b*(X - price_X) with the least-squares coefficients",
+                                                            "component": j, "adjusted": adj_rows[:4, j].tolist(), "expected": exp_adj[:4].tolist()}, cls=cls)
+                    return
         if len(controls) == 1:
             out = ctx.lean(f"cv1 {w(controls[0][2])} {wl(xs[0])} {wl(ys[j])}").split(" ")
             b, adj, madj, eadj = rd(out[0]), rdl(out[1]), rd(out[2]), rd(out[3])
